@@ -14,7 +14,7 @@ from harness import jsonify
 from harness.common import dumps
 
 ALPHABET = ["a", "B", "-", "v", "1", "0", " "]
-EXTRA = ["_", ".", ":", "7", "/", "!", "V", "é"]
+EXTRA = ["_", ".", ":", "7", "/", "!", "V", "é", "\n", "\t"]
 
 
 class ProbeEnv:
@@ -83,9 +83,13 @@ def drive_parse(tier, seed):
         else:
             s = body
         evs.append(parse_event(reg, s, "random"))
-    # every shipped id
-    for i in sorted(reg._REGISTRY):
+    # every shipped id, and the same ids spoiled by one whitespace character at either end / inside
+    for i in sorted(reg._REGISTRY) + ["Env-v0", "a-v10", "x:y.z-w-v3"]:
         evs.append(parse_event(reg, i, "shipped"))
+        for ws in ("\n", "\t", " ", "\n\n", "\r"):
+            evs.append(parse_event(reg, i + ws, "trailing_whitespace"))
+            evs.append(parse_event(reg, ws + i, "leading_whitespace"))
+            evs.append(parse_event(reg, i[:2] + ws + i[2:], "inner_whitespace"))
     return evs
 
 
